@@ -51,7 +51,7 @@ theorem IngrStep.shape {env : Env} {s : Col α} {ings : Array (Ingredient (Scala
         · cases hk
       · exact ⟨h.shape k ig' hk, h.secRange k ig' hk⟩
 
-theorem Trans.shape {env : Env} {b : Bool} {s s' : Col α} (ht : Trans env b s s') (h : ShapeInv s) : ShapeInv s' := by
+theorem Trans.shape {env : Env} {b : Ev α} {s s' : Col α} (ht : Trans env b s s') (h : ShapeInv s) : ShapeInv s' := by
   cases ht with
   | keep hsec hcur hi hc hb => exact ⟨by rw [hi]; exact h.shape, by rw [hi, hsec]; exact h.secRange⟩
   | newSection name hse hsec hcur hi hc hb =>
